@@ -77,6 +77,10 @@ def arith(t):
         return a
     if t[0] == "binop" and t[1] in ("Add", "Sub", "Mul", "Div"):
         return ({"Add": "+", "Sub": "-", "Mul": "*", "Div": "/"}[t[1]], arith(t[2]), arith(t[3]))
+    if t[0] == "call" and t[1].split("::")[-1] == "unwrap_or" and len(t[2]) == 2 and t[2][0][0] == "call" and t[2][0][1].split("::")[-1] == "checked_div":
+        # a.checked_div(b).unwrap_or(fallback): the quotient when it exists
+        c = t[2][0]
+        return ("/", arith(c[2][0]), arith(c[2][1]))
     if t[0] == "call":
         n = t[1].split("::")[-1]
         m = {"saturating_add": "+", "saturating_sub": "-", "saturating_mul": "*", "checked_add": "+", "checked_sub": "-", "wrapping_add": "?", "wrapping_sub": "?"}.get(n)
